@@ -41,7 +41,7 @@ ASSUMPTIONS = [
 ]
 BOUNDS = {"quick": "all topologies with <= 7 components (incl. grid and batteries); device powers symbolic", "thorough": "<= 8 components"}
 OUTSIDE = "graphs outside the grammar (several batteries per inverter, inverters shared by batteries, cycles); stream timing (C06/C19); larger graphs"
-BUDGET = {"quick": 300, "thorough": 2400}
+BUDGET = {"quick": 400, "thorough": 1500}
 KF = "C12-consumer-without-grid-meter-mixed-meter"
 
 
